@@ -15,6 +15,14 @@ class PlanBaseBoom(BaseException):
     pass
 
 
+class PlanFalsyBoom(Exception):
+    def __bool__(self):
+        return False
+
+    def __len__(self):
+        return 0
+
+
 HANG_TIMEOUT = 30
 
 
@@ -55,7 +63,7 @@ def gen_plan(rng, uberjob, rec, ncalls, failing_frac=0.0, exc_kinds=("Exception"
                 barrier(i)
             if fail_kind:
                 e = {"Exception": PlanBoom, "BaseException": PlanBaseBoom, "KeyboardInterrupt": KeyboardInterrupt,
-                     "SystemExit": SystemExit}[fail_kind]("call %d" % i)
+                     "SystemExit": SystemExit, "Falsy": PlanFalsyBoom}[fail_kind]("call %d" % i)
                 rec.raised[i] = e
                 rec.ev("fail", i)
                 raise e
@@ -100,6 +108,18 @@ def gen_plan(rng, uberjob, rec, ncalls, failing_frac=0.0, exc_kinds=("Exception"
                 plan.add_dependency(calls[j], lit)
                 plan.add_dependency(lit, c)
             deps[i].add(j)
+        if len(calls) > 3 and rng.random() < 0.2:
+            # a literal used purely as an ordering gate with m predecessors and n successors (m, n in 1..3)
+            m_, n_ = rng.choice([1, 2, 2, 3]), rng.choice([1, 2, 2])
+            ps = rng.sample(range(len(calls) - 1), min(m_, len(calls) - 1))
+            gate = plan.lit("gate")
+            for j in ps:
+                plan.add_dependency(calls[j], gate)
+            succ = [i] + ([rng.randrange(max(ps) + 1, len(calls)) for _ in range(n_ - 1)] if max(ps) + 1 < len(calls) else [])
+            for t in set(succ):
+                if t > max(ps):
+                    plan.add_dependency(gate, calls[t])
+                    deps[t] |= set(ps)
     return plan, calls, deps, failing
 
 
@@ -116,7 +136,7 @@ def closure(deps):
 def run_plan_case(ctx, uberjob, rng, props, found, barrier_width=None):
     ncalls = rng.randrange(0, 13)
     rec = Recorder()
-    exc_kinds = rng.choice([("Exception",), ("Exception",), ("Exception", "BaseException"), ("SystemExit",), ("KeyboardInterrupt",)])
+    exc_kinds = rng.choice([("Exception",), ("Exception",), ("Exception", "BaseException"), ("SystemExit",), ("KeyboardInterrupt",), ("Falsy",), ("Falsy", "Exception")])
     plan, calls, deps, failing = gen_plan(rng, uberjob, rec, ncalls, failing_frac=rng.choice([0, 0, 0.15, 0.3]), exc_kinds=exc_kinds)
     anc = closure(deps)
     outkind = rng.choice(["none", "node", "struct", "literal", "all"])
